@@ -87,8 +87,10 @@ LEAF = [
     "{% tablerow r in xs cols: 2 %}{{ r }}{% if r == 2 %}{% break %}{% endif %}{% endtablerow %}{% tablerow r in xs cols: 1 %}{% if r == 1 %}{% continue %}{% endif %}{{ r }}{% endtablerow %}",
     "{% raw %}{% endraw -%}  {{ x }}{% raw %}{{ y }}{% endraw %}{%- comment %}c{% endcomment -%} z",
     "{% case x %}{% when 1, x, x %}several{% when x %}again{% else %}no{% endcase %}{% case s %}{% when 'abc', s %}S{% endcase %}",
+    "{{ a[s] }}{{ xs[y] }}{{ hs[y].k }}{{ a[x][y] }}{% assign key = 'k' %}{{ a[key] }}{% for e in hs %}{{ e[key] }}{% endfor %}",
+    "{% doc -%} usage: {% if %} {% form %} {% enddoc %}{%- doc %}{% else %}{% enddoc -%}{{ x }}{% comment -%}{% endif %}{%- endcomment %}",
 ]
-assert len(WRAP) == 16 and len(LEAF) == 39 and len(WRAP2) == 5   # the bounds in mk_condition's contract
+assert len(WRAP) == 16 and len(LEAF) == 41 and len(WRAP2) == 5   # the bounds in mk_condition's contract
 
 # data sets: nothing defined / ordinary / odd types
 DATA = [
@@ -160,7 +162,7 @@ def mk_condition(name, check, skip=None):
 
     def f(w1: int, leaf: int) -> bool:
         """
-        pre: 0 <= w1 <= 15 and 0 <= leaf <= 38
+        pre: 0 <= w1 <= 15 and 0 <= leaf <= 40
         post: _
         """
         if excluded(name, locals()):
@@ -182,7 +184,7 @@ def outcome(thunk):
         return ("other", type(e).__name__)
 
 
-BOUNDS = "corpus of %d templates = 5 outer constructs x 16 constructs x 39 leaves (harness/corpus.py), 4 fixed data sets" % SIZE
+BOUNDS = "corpus of %d templates = 5 outer constructs x 16 constructs x 41 leaves (harness/corpus.py), 4 fixed data sets" % SIZE
 
 __all__ = ["PARTIALS", "WRAP", "WRAP2", "LEAF", "DATA", "data", "source", "make_env", "template", "Mode",
            "NW2", "NW1", "NLEAF", "NDATA", "SIZE"]
